@@ -25,6 +25,7 @@ import ThriftVerif.Idl.QuoteProofs
 import ThriftVerif.Idl.NumberProofs
 import ThriftVerif.Idl.ParserProofs
 import ThriftVerif.Idl.WalkProofs
+import ThriftVerif.Idl.TokenProofs
 import ThriftVerif.Idl.Observe
 
 namespace ThriftVerif.Properties.C11
@@ -208,5 +209,29 @@ theorem lexInt_forms (n : Nat) :
 example : showInt (-9223372036854775808) = b!"-9223372036854775808" ∧ showHex 255 = b!"0xff" ∧
     lexInt b!"9223372036854775808" = none ∧ lexInt b!"0x7fffffffffffffff" = some 9223372036854775807 := by
   decide
+
+/-! ### (f) print / scan round trip — PARTIAL: single tokens only
+
+Missing: the round trip for a whole token sequence under a layout grammar
+(`lex (render layout toks) = toks`: needs the same statement for identifiers, keywords, symbols and
+doubles plus the composition through the skip loop), and the grammar-level round trip
+`parse (print ast) = ast`. Both are exercised on generated documents by the harness
+(parse(render(ast)) against the printer's tree). -/
+
+/-- The scanner reads back every literal the natural `"`-printer writes as that LITERAL token,
+and stops at the closing quote whatever follows — PARTIAL: same exclusion as D16. -/
+theorem lex_literal_token_partial (s rest : Bytes) (h : noPair 39 s = true) :
+    tokenRes 34 (quoteBody 34 false s ++ 34 :: rest) =
+      .tok (.lit s) ((quoteBody 34 false s).length + 2) 0 :=
+  tokenRes_quoteDouble s rest h
+
+/-- The scanner reads back every non-negative int64 printed in decimal as that INTCONSTANT, when
+the next byte cannot continue a number (not a digit, `.`, `e`, `E`, `x`). -/
+theorem lex_int_token (n : Nat) (rest : Bytes) (hn : n < 2 ^ 63) (hstop : numberStop rest = true) :
+    numberRes (showNat n ++ rest) 0 = .tok (.int n) (showNat n).length (showNat n).length :=
+  numberRes_showNat n rest hn hstop
+
+example : numberStop b!" ;" = true ∧ numberStop b!"e5" = false ∧
+    ((lexAll b!"42 \"a\\\\b\"").map (·.tok)) = [.int 42, .lit b!"a\\b", .eof] := by decide
 
 end ThriftVerif.Properties.C11
